@@ -215,6 +215,18 @@ case("F54 argmax with a NaN fill on an in-memory array", lambda: groupby_reduce(
 case("F55 integer dtype= for mean on the flox engine", lambda: groupby_reduce(np.array([1, 2, 3, 4], dtype=np.int8), np.array([0, 0, 1, 1]), func="mean", dtype="int16", engine="flox")[0].tolist(), lambda r: r == [1, 3])
 case("F55 integer dtype= for median (automatic engine)", lambda: groupby_reduce(np.array([1, 2, 3, 4], dtype=np.int8), np.array([0, 0, 1, 1]), func="median", dtype="int16")[0].tolist(), lambda r: r == [1, 3])
 
+# F56
+def f56():
+    a = np.array([1e8, 1.0, -1e8, 1.0], dtype=np.float32)
+    rs = [groupby_reduce(da.from_array(a, chunks=4), np.zeros(4, int), func="nansum", engine=e)[0] for e in ("numpy", "flox")]
+    alone = [r.compute().tolist() for r in rs]
+    import dask
+    together = [x.tolist() for x in dask.compute(*rs)]
+    return alone == together
+
+
+case("F56 lazy results that differ only in the engine, computed together", f56, lambda r: r is True)
+
 bad = 0
 for name, verdict in results:
     print(f"{name:55s} {verdict}")
